@@ -679,6 +679,66 @@ static void var_eval(uint64_t idx, void *ctx) {
     free(block);
 }
 
+/* ------------------------------------------------------------------------------------------------------------
+ * section shortbuf: formatting into every amount of free space 0..40 behind 0 or 3 bytes already in the buffer.
+ * A call either succeeds (exactly the calendar's text appended) or is refused with the buffer as it was: same
+ * len, same bytes before len - so that growing the buffer and calling again yields the text once (added after a
+ * seeded change whose refused RFC 822 call left len advanced past a half-written date)
+ * ---------------------------------------------------------------------------------------------------------- */
+#define SB_FREE 41
+static const int64_t sb_instants[6] = {0, 951782400 + 86399 /* 2000-02-29 23:59:59 */, 1700000000, 4107542400 /* 2100-03-01 */, 253402300799 /* 9999-12-31 23:59:59 */, 86400 * 365 + 3600 * 7 + 60 * 8 + 9};
+static uint64_t sb_total(void) { return 6ull * NKINDS * SB_FREE * 2; }
+static void sb_eval(uint64_t idx, void *ctx) {
+    (void)ctx;
+    BEE_ITEM(idx);
+    uint64_t x = idx;
+    size_t start = (x % 2) ? 3 : 0;
+    x /= 2;
+    size_t freeb = (size_t)(x % SB_FREE);
+    x /= SB_FREE;
+    int kind = (int)(x % NKINDS);
+    x /= NKINDS;
+    int64_t t = sb_instants[x];
+    struct aws_date_time d;
+    memset(&d, 0, sizeof(d));
+    aws_date_time_init_epoch_secs(&d, (double)t);
+    civil_t c = civil_from_secs(t);
+    char want[64];
+    size_t wn = canonical_text(kind, &c, want, sizeof(want));
+    size_t cap = start + freeb;
+    uint8_t *out = malloc(cap ? cap : 1); /* exact size: the sanitizer sees any byte written past the capacity */
+    memset(out, 0xC7, cap ? cap : 1);
+    struct aws_byte_buf ob = aws_byte_buf_from_empty_array(out, cap);
+    ob.len = start;
+    aws_reset_error();
+    enum aws_date_format f = kind_fmt[kind];
+    int rc = kind_short[kind] ? aws_date_time_to_utc_time_short_str(&d, f, &ob) : aws_date_time_to_utc_time_str(&d, f, &ob);
+    int err = rc ? aws_last_error() : 0;
+    g_case.mode = 0;
+    g_case.how = "format into a short buffer";
+    g_case.t = t;
+    g_case.ms = 0;
+    V_COUNT("evaluations", 1);
+    V_COUNT("nontrivial", 1);
+    V_COUNT(rc ? "shortbuf_refused" : "shortbuf_fitted", 1);
+    int prefix_ok = 1;
+    for (size_t i = 0; i < start; ++i) prefix_ok &= out[i] == 0xC7;
+    CHECK(prefix_ok && (ob.buffer == out || cap == 0) && ob.capacity == cap, "shortbuf-prefix", "%s of %" PRId64 " with %zu free bytes behind %zu: bytes before len or the buffer descriptor changed",
+          kind_name[kind], t, freeb, start);
+    if (rc == AWS_OP_SUCCESS) {
+        CHECK(ob.len == start + wn && wn <= freeb && memcmp(out + start, want, wn) == 0, CL("shortbuf-text:%s", kind_name[kind]),
+              "%s of %" PRId64 " with %zu free bytes behind %zu: success with len=%zu and text \"%s\", calendar says \"%s\" (%zu bytes)", kind_name[kind], t, freeb, start,
+              ob.len, v_show(out + start, ob.len >= start && ob.len <= cap ? ob.len - start : 0), want, wn);
+    } else {
+        CHECK(ob.len == start, CL("shortbuf-refused-call-moved-len:%s", kind_name[kind]),
+              "%s of %" PRId64 " with %zu free bytes behind %zu is refused (error %d) but len is now %zu: a retry into a grown buffer starts after %zu stray bytes",
+              kind_name[kind], t, freeb, start, err, ob.len, ob.len - start);
+        CHECK(err == AWS_ERROR_SHORT_BUFFER, "shortbuf-error-code", "%s of %" PRId64 " with %zu free bytes: refused with error %d, not SHORT_BUFFER", kind_name[kind], t, freeb, err);
+        CHECK(freeb <= wn, CL("shortbuf-refused-although-it-fits:%s", kind_name[kind]), "%s of %" PRId64 " (%zu bytes + terminator) is refused with %zu free bytes", kind_name[kind], t, wn, freeb);
+    }
+    free(out);
+}
+
 int main(int argc, char **argv) {
     v_init(argc, argv);
     if (!calendar_selfcheck()) {
@@ -692,5 +752,6 @@ int main(int argc, char **argv) {
     }
     bee_register("roundtrip", rt_total, rt_eval, 20);
     bee_register("variants", var_total, var_eval, 20);
+    bee_register("shortbuf", sb_total, sb_eval, 20);
     return bee_main(argc, argv);
 }
